@@ -85,6 +85,8 @@ def contracts(tier):
 
 
 def extra_checks(rep, tier):
+    from contracts import grid_upload
+    grid_upload.grid_check(rep, tier, "C07")
     mx = (3, 3) if tier == "quick" else (4, 4)
     items = list(layouts(*mx))
     rng = random.Random(rep.seed)
